@@ -1,6 +1,6 @@
 \* exhaustive, as implemented (Dev = every modelled deviation); IdealHolds is the Dev = {} result.
 \* other shapes: UVars = {} (all shared_ptr), {"a","b","c"} (all unique_ptr), {"a","b"} with BVars = {"b","c"}
-CONSTANTS NVar = 3  UVars = {"a"}  BVars = {"c"}  NObj = 2  Hist = FALSE  Depth = 0
+CONSTANTS NVar = 3  UVars = {"a"}  BVars = {"c"}  NObj = 2  MKind = "none"  Hist = FALSE  Depth = 0
           Dev = {"shared-self-copy-assign-sole-owner"}
 INIT Init
 NEXT Next
